@@ -109,6 +109,10 @@ func genEntry(t *rapid.T, maxSize int) kit.EntrySpec {
 	if e.DataLen > maxSize {
 		e.DataLen = maxSize
 	}
+	if rapid.IntRange(0, 39).Draw(t, "around64k") == 0 {
+		// now and then an entry whose frame straddles the 64 KiB read buffer
+		e.DataLen = 65536 - rapid.IntRange(-16, 60).Draw(t, "d64k")
+	}
 	e.Seed = uint8(rapid.IntRange(0, 255).Draw(t, "seed"))
 	if rapid.IntRange(0, 3).Draw(t, "hasext") == 0 {
 		e.ExtLen = rapid.IntRange(1, 40).Draw(t, "el")
